@@ -439,7 +439,7 @@ func total(r *ev.Run, c *ev.Case, data []byte, what string) {
 	r.Eval(1)
 	if len(data) < 4096 {
 		d := append([]byte{}, data...)
-		defer func() { ring.Add(r, c, func() string { return parseDigest(d) }, parseDigest(d), hex.EncodeToString(d)) }()
+		defer func() { ring.Add(r, c, func() string { return ev.Digest(func() string { return parseDigest(d) }) }, ev.Digest(func() string { return parseDigest(d) }), hex.EncodeToString(d)) }()
 	}
 	rec := map[string]string{"what": what, "der_hex": hex.EncodeToString(data)}
 	r.Guard(c, "ParseCertificate("+what+")", rec, func() {
